@@ -10,7 +10,7 @@ from vf.spec import opcodes as T
 ID = "C16"
 LEVEL = "model_checking"
 TECHNIQUE = "explicit enumeration of all attach / re-attach histories (bounded length) over simulated targets of every peripheral device type and qualifier on both transports, judged by a device-type -> command-set reference table and a differential comparison with a fresh facade"
-RULE = ("depth 1: all 32 peripheral device types x 8 qualifiers x {SG_IO, iSCSI} x {SCSI(dev), facade(dev) re-attach}; histories: all sequences of "
+RULE = ("depth 1: all 32 peripheral device types x 8 qualifiers x {SG_IO, iSCSI} x {SCSI(dev), facade(dev) re-attach}; all 32 types x every single bit of INQUIRY bytes 1-7 and 56 set (the selection may depend on the device type only); histories: all sequences of "
         "length <= 3 over device types {00,01,03,04,05,07,08,0E,1F} (9^1+9^2+9^3 per transport, mixing transports at the second step), "
         "first step by construction, later steps by calling the same facade. states = distinct (facade device, per-device command set) "
         "configurations; transitions = attach events. Non-trivial = history has a re-attach or a type other than 00.")
@@ -74,8 +74,10 @@ def run_case(case, obs=None):
     rigs = []
     s = None
     try:
-        for i, (tr, dtype, q) in enumerate(steps):
-            rig = harness.Rig(tr, dtype, q)
+        for i, step in enumerate(steps):
+            tr, dtype, q = step[:3]
+            patch = {int(k): v for k, v in (step[3] if len(step) > 3 else {}).items()}
+            rig = harness.Rig(tr, dtype, q, inq_patch=patch)
             rigs.append(rig)
             where = "step %d of %r" % (i, steps)
             n0 = len(rig.target.log)
@@ -88,7 +90,7 @@ def run_case(case, obs=None):
                 out.append(("facade_device", "%s: facade not bound to the new device" % where))
             out += check_device(rig.dev, dtype, rig.target, where, n0)
             # differential: a fresh facade over an identical fresh device selects the same set
-            ref = harness.Rig(tr, dtype, q)
+            ref = harness.Rig(tr, dtype, q)         # (default INQUIRY data: the selection must depend on the device type only)
             try:
                 SCSI(ref.dev)
                 if set_id(ref.dev) != set_id(rig.dev):
@@ -138,6 +140,13 @@ def run_partition(part, tier, seed):
             for q in range(8):
                 do([(tr, dtype, q)])
                 do([(tr, 0x00, 0), (tr, dtype, q)])
+            # the rest of the standard INQUIRY data must not influence the selection: every single bit of bytes 1-7 and 56 set,
+            # all of them set, and vendor/product text changed
+            for byte in (1, 2, 3, 5, 6, 7, 56):
+                for bit in range(8):
+                    do([(tr, dtype, 0, {byte: 1 << bit})])
+            do([(tr, dtype, 0, {1: 0xFF, 2: 0xFF, 3: 0xFF, 5: 0xFF, 6: 0xFF, 7: 0xFF, 56: 0xFF})])
+            do([(tr, 0x08, 0), (tr, dtype, 0, {6: 0x08, 5: 0x80})])
         return acc
     _, tr, t0 = part
     other = "iscsi" if tr == "sgio" else "sgio"
